@@ -13,12 +13,12 @@ RULE = ('simulated powertrains (random chains with structural data so that force
         'requested labels; CSV files re-read with the csv module: one row per instant, time and every recorded variable converted. '
         'non-trivial = subset that is neither the default nor without effect; distinct by (subset, target kind)')
 ASSUMPTIONS = ['column / row order is not part of the statement and is not judged', 'cells compared at 1e-9 (snapshot, interpolation) and 1e-12 (CSV) relative']
-HEADLINE = ['simulations', 'snapshots', 'snapshot_cells', 'exports', 'csv_cells', 'targets_grid', 'targets_mid', 'targets_random', 'targets_end', 'mixed_unit_histories']
+HEADLINE = ['second_history_after_reset', 'simulations', 'snapshots', 'snapshot_cells', 'exports', 'csv_cells', 'targets_grid', 'targets_mid', 'targets_random', 'targets_end', 'mixed_unit_histories']
 
 
 def floors(tier):
     return {'snapshots': 1500, 'snapshot_cells': 15000, 'exports': 100, 'csv_cells': 100000, 'targets_grid': 300, 'targets_mid': 300, 'targets_random': 300,
-            'targets_end': 100, 'mixed_unit_histories': 30, 'set:subsets': 66, 'set:unit_values': 60, 'set:nontrivial': 100}
+            'targets_end': 100, 'mixed_unit_histories': 30, 'second_history_after_reset': 15, 'set:subsets': 66, 'set:unit_values': 60, 'set:nontrivial': 100}
 
 
 def n_cases(tier):
@@ -105,6 +105,33 @@ def one(ctx, i):
     if not ok:
         relabel(ctx)
         return
+    if i % 4 == 0 and not spec.get('stop'):
+        # a second history of the same length on the same powertrain (reset, other initial conditions, same schedule):
+        # snapshots and exports must report the *current* history, whatever was asked before the reset
+        first_calls = []
+        for sub in todo[:4]:
+            un_ = CE.random_units(rng)
+            k = rng.randrange(tr.n - 1)
+            tq = GEN.Q('Time', 0.5 * (tr.time[k] + tr.time[k + 1]), 'sec')
+            if not CE.check_snapshot(ctx, b, tr, tq, sub, un_, case):
+                relabel(ctx)
+                return
+            first_calls.append((sub, un_, tq))
+        b.pt.reset()
+        b.spec['ic'] = dict(spec['ic'], speed=GEN.Q('AngularSpeed', (GEN.qsi(spec['ic']['speed']) or spec['_ref']['w_out']) * -0.7, 'rad/s'),
+                            pos=GEN.Q('AngularPosition', GEN.qsi(spec['ic']['pos']) + 0.3, 'rad'))
+        B.apply_ic(b)
+        runs2 = B.run_schedule(b)
+        if not any(r['exc'] for r in runs2):
+            tr2 = B.extract(b)
+            ctx.count('second_history_after_reset')
+            for sub, un_, tq in first_calls:
+                if tr2.n == tr.n and not CE.check_snapshot(ctx, b, tr2, tq, sub, un_, case):
+                    relabel(ctx)
+                    return
+            if not CE.check_export(ctx, b, tr2, os.path.join(ctx.scratch, f'exp{i}b'), tu, units, case):
+                relabel(ctx)
+                return
     if len(ctx.samples) < 2:
         sub = todo[0]
         units = CE.random_units(rng)
